@@ -1,4 +1,5 @@
 import SlotVerif.Proofs.Snapshot
+import SlotVerif.Proofs.UnionFind
 /-!
 # C08 — No operation sequence panics or leaves the e-graph inconsistent
 
@@ -7,7 +8,13 @@ checked per run under `catch_unwind` in the default and the `checks` build.  Wha
 snapshot checker `checkInv`, which every explored post-state must pass, implies the stated
 consistency facts for *all* invocations and e-nodes of that state — in particular
 "canonicalising an invocation twice equals canonicalising it once" follows from the slot-map
-algebra of C19 (`compose_assoc`).
+algebra of C19 (`compose_assoc`).  **Path compression** (`unionfind_get_impl`'s write-back, the one
+place where a read-only public call mutates the state) is modelled (`Snap.ufGetW`, `Snap.findW`)
+and proved invisible: `findW_spec` — on every table that passes `ufOK`, the compressing
+`find_applied_id` returns what the read-only model returns, the table keeps its invariants, and
+every invocation that could be canonicalised before is canonicalised to the same result after,
+for any number of calls (`compress_preserves_find`).  The compressed table the implementation
+ends with is compared with the model's on every run (query `compress`).
 -/
 namespace SV.C08
 open SV SV.Snap SV.SlotMap
@@ -73,6 +80,55 @@ theorem inv_leader_identity {s : Snap} (h : checkInv s = true) {c : SClass} (hc 
   | none => rw [hu] at hl; simp at hl
   | some e => rw [hu] at hl; exact ⟨e, rfl, by simpa using hl⟩
 
+/-- **path compression must preserve the composed slot map**: the compressing `find_applied_id` agrees with the
+read-only one, keeps the table well formed, and changes the canonical form of no invocation -/
+theorem findW_spec {s : Snap} (hok : ufOK s = true) {a b : AppId} {s' : Snap} (h : findW s a = some (b, s')) :
+    find s a = some b ∧ UfWF s' ∧ LeaderId s' ∧ s'.uf.length = s.uf.length ∧ s'.classes = s.classes ∧
+      ∀ (c d : AppId), find s c = some d → find s' c = some d := by
+  obtain ⟨hw, hl⟩ := ufOK_sound hok
+  unfold findW at h
+  cases hr : ufGetW s.uf (s.uf.length + 1) a.id with
+  | none => rw [hr] at h; simp at h
+  | some pr =>
+    obtain ⟨l, u'⟩ := pr
+    rw [hr] at h
+    simp only [Option.map_some, Option.some.injEq, Prod.mk.injEq] at h
+    obtain ⟨hb, hs'⟩ := h
+    obtain ⟨h1, hw', hl', hlen, hp⟩ := ufGetW_spec _ _ s.uf l u' hw hl hr
+    subst hs'
+    refine ⟨?_, hw', hl', hlen, rfl, ?_⟩
+    · unfold find; rw [ufGet_eq_L, h1]; simp [hb]
+    · intro c d hc
+      unfold find at hc ⊢
+      rw [ufGet_eq_L] at hc ⊢
+      simp only at hc ⊢
+      cases hq : ufGetL s.uf (s.uf.length + 1) c.id with
+      | none => rw [hq] at hc; simp at hc
+      | some q =>
+        rw [hq] at hc
+        rw [hlen, hp _ _ _ hq]; exact hc
+
+/-- any sequence of compressing calls leaves every resolvable id resolved to the same leader invocation -/
+theorem compress_preserves_find {s : Snap} (hok : ufOK s = true) {ids : List Nat} {uf' : List AppId}
+    (h : compressAll s.uf ids = some uf') {c d : AppId} (hc : find s c = some d) :
+    find { s with uf := uf' } c = some d := by
+  obtain ⟨hw, hl⟩ := ufOK_sound hok
+  obtain ⟨_, _, hlen, hp⟩ := compressAll_spec ids s.uf uf' hw hl h
+  unfold find at hc ⊢
+  rw [ufGet_eq_L] at hc ⊢
+  simp only at hc ⊢
+  cases hq : ufGetL s.uf (s.uf.length + 1) c.id with
+  | none => rw [hq] at hc; simp at hc
+  | some q =>
+    rw [hq] at hc
+    rw [hlen, hp _ _ _ hq]; exact hc
+
+/-- after a compressing call the queried id points directly at its leader -/
+theorem findW_flat {s : Snap} (hok : ufOK s = true) {i : Nat} {r : AppId} {u' : List AppId}
+    (h : ufGetW s.uf (s.uf.length + 1) i = some (r, u')) : ufGetL u' 2 i = some r :=
+  ufGetW_compressed (ufOK_sound hok).1 (ufOK_sound hok).2 h
+
+
 /-- non-vacuity: a two-class state (one class merged into the other, one slot dropped) passes the
 checker, so the hypotheses above are satisfiable by a non-trivial state -/
 def demo : Snap :=
@@ -82,5 +138,12 @@ def demo : Snap :=
       { id := 1, slots := [9], nodes := [(⟨0, [.slot 0, .slot 4]⟩, [(0, 9), (4, 17)])], gens := [],
         syn := ⟨0, [.slot 0]⟩, data := "-" }] }
 example : checkInv demo = true ∧ find demo ⟨0, [(5, 40), (13, 44)]⟩ = some ⟨1, [(9, 40)]⟩ := by decide
+
+/-- non-vacuity of the compression theorems: a chain 0 → 1 → 2 (with a dropped slot on the way) is flattened -/
+def chain : Snap :=
+  { uf := [⟨1, [(9, 5)]⟩, ⟨2, [(17, 9)]⟩, ⟨2, [(17, 17)]⟩], classes := [] }
+example : ufOK chain = true ∧
+    (findW chain ⟨0, [(5, 40), (13, 44)]⟩).map (fun p => (p.1, p.2.uf)) =
+      some (⟨2, [(17, 40)]⟩, [⟨2, [(17, 5)]⟩, ⟨2, [(17, 9)]⟩, ⟨2, [(17, 17)]⟩]) := by decide
 
 end SV.C08
